@@ -75,7 +75,7 @@ Example C05_roundtrip :
   let w0 := fst (step (fst (step empty_wallet (OpCoinbase 0 1 None)))
                       (OpRefresh 0 false 5 [((0, 0), None, 1)] [])) in
   let wA := fst (step w0 (OpInitSend 1 None (mkParams 1000000000 false 5 1 500 1 true 0) false)) in
-  let wL := fst (step wA (OpLock 1 0 5)) in
+  let wL := fst (step wA (OpLock 1 0 5 true)) in
   let wC := fst (step wL (OpCancel (Some 1) None)) in
   map sv (w_outs wC) = map sv (w_outs w0) /\ map sv (w_outs wL) <> map sv (w_outs w0)
   /\ snd (step wL (OpCancel (Some 1) None)) = [0%Z].
